@@ -7,7 +7,7 @@ from props.cli_gen import Gen, HEADER, SPECIAL_ATOMS
 ID = 'C19'
 IMPORTS = ['Cli.Comment', 'Cli.Cli', 'Cli.RunCli']
 from lib.pyrepr_check import cps as _cps, g_cps as _g_cps, printable_table as _printable_table
-THEOREMS = ['C19_comment_every_line', 'C19_comment_lines_content', 'C19_strip_comment_lines',
+THEOREMS = ['C19_comment_every_line', 'C19_comment_lines_content', 'C19_comment_lines_clean', 'C19_strip_comment_lines',
             'C19_debug_only_comments', 'C19_cli_equals_library', 'C19_sources_as_on_disk',
             'C19_cli_first_failure', 'C19_exit_status', 'C19_missing_source',
             'C19_library_text_clean', 'C19_debug_only_comments_compiler', 'C19_cli_equals_compile_text',
@@ -43,8 +43,7 @@ ASSUMPTIONS = ['the output file is not read back as a later source while output 
                'removing comment lines; runs with --debug-filename only are compared exactly',
                'the message of a `program too large` error quotes CPython\'s SyntaxError with the file name given to compile() and a '
                'line number of the generated text; both are dropped before messages are compared',
-               'a message with U+0000 gives a comment line that CPython refuses to load (source code cannot contain null '
-               'bytes): the `output parses` oracle skips outputs that contain U+0000 in a comment']
+               'lone surrogates in a source are outside the domain (no UTF-8 file form)']
 CASE_TIMEOUT = 300
 COQ_CHUNK = 6
 
@@ -80,7 +79,8 @@ def rand_msg(rng):
         if k < 0.45:
             parts.append(rng.choice(BREAKS))
         elif k < 0.6:
-            parts.append(rng.choice(['import os', 'x = 1', '#', '# c', ' ', '', 'def f():', '  pass', 'é', '日本', '\t', '"""', "'''", '\\']))
+            parts.append(rng.choice(['import os', 'x = 1', '#', '# c', ' ', '', 'def f():', '  pass', 'é', '日本', '\t', '"""', "'''", '\\',
+                                     '\x00', 'a\x00b', '\\0', '\x00\n\x00']))
         elif k < 0.7:
             parts.append(rng.choice(BREAKS) * rng.choice([2, 3]))
         else:
@@ -307,7 +307,7 @@ def impl(case):
         m = case['msg']
         c = comment_lines(m)
         return {'comment': c, 'splitlines': m.splitlines(), 'plines': py_plines(c),
-                'tok_ok': ('\x00' in m) or only_comment_tokens(c)}
+                'tok_ok': only_comment_tokens(c), 'compiles': _parses(c), 'dump': _dump(c)}
     if case['kind'] == 'strip':
         t = case['text']
         return {'strip': py_strip(t), 'plines': py_plines(t)}
@@ -439,6 +439,16 @@ def _parses(text):
     except Exception:
         return False
 
+def _dump(text):
+    """ast.dump of the text as a Python module; None if it does not parse"""
+    import ast
+    try:
+        return ast.dump(ast.parse(text))
+    except RecursionError:
+        return 'too deep to dump'
+    except Exception:
+        return None
+
 def oracle(case, io_):
     if case['kind'] == 'comment':
         c = io_['comment']
@@ -448,6 +458,10 @@ def oracle(case, io_):
             return 'a line of the commented message does not start with #'
         if not io_['tok_ok']:
             return "Python's tokenizer sees something else than comments in the commented message"
+        if '\x00' in c or any(ch in l[:-1] for l in io_['plines'] for ch in '\r\n'):
+            return 'the commented message contains a NUL, or a CR / LF inside a line'
+        if not io_['compiles'] or io_['dump'] != _dump(''):
+            return 'the commented message is not an empty Python module (compile / ast.dump)'
         return None
     if case['kind'] == 'strip':
         return None
@@ -521,8 +535,12 @@ def oracle(case, io_):
             src_fail = case['sources'][len(expect)]
             if not run['end'][1].startswith(src_fail + pos):
                 return tag + 'error message does not start with file:line:column'
-        if '\x00' not in out and not _parses(out):
-            return tag + 'output does not parse as Python'
+        if not _parses(out):
+            return tag + 'output does not compile as Python (compile(text, .., "exec"))'
+        if '\x00' in out:
+            return tag + 'output contains a NUL character'
+        if any(run['flags']) and _dump(out) != _dump(want):
+            return tag + 'ast.dump of the output differs from ast.dump of the output without debug options'
         # every physical line that is not in the library text is a comment
         extra = [l for l in py_plines(out) if l.startswith('#')]
         if not all(l.startswith('#') for l in extra):
